@@ -69,35 +69,47 @@ def direction(ctx, rr):
 # ------------------------------------------------------------------------------------------------ R-DISTINCT-DEGREE
 @rule('R-DISTINCT-DEGREE')
 def distinct_degree(ctx, rr):
-    """degrees count distinct pages: a counting loop iterates a de-duplicating link iterator, never the raw stub list"""
+    """degrees count distinct pages: a counting construct iterates a de-duplicating link iterator, never the raw stub list"""
     P = ctx.P
     ls = P.require_class('LinkStore')
     dedup = {}
     for name, u in ls.items():
         if u.is_gen and name != 'nodes_iter':
-            uses = any(isinstance(c.func, ast.Name) and c.func.id in ('set', 'Counter') for c in P.own(u, ast.Call))
+            uses = any(isinstance(c.func, ast.Name) and c.func.id in ('set', 'Counter', 'dict', 'defaultdict') for c in P.own(u, ast.Call)) or \
+                any(isinstance(x, (ast.Set, ast.SetComp, ast.Dict, ast.DictComp)) for x in ast.walk(u.node))
             dedup[name] = uses
     if not any(dedup.values()) or all(dedup.values()):
         raise AnalysisError('R-DISTINCT-DEGREE: cannot tell raw from de-duplicating link iterators any more: %s' % dedup)
-    n = 0
+    sites = []
     for u in P.units:
+        if u.cls == 'LinkStore':
+            continue
         for f in P.own(u, ast.For):
-            if not isinstance(f.iter, ast.Call):
-                continue
-            tg = [t for t in P.targets(f.iter) if t.cls == 'LinkStore' and t.name in dedup]
-            if not tg:
-                continue
-            counting = all(isinstance(s, ast.AugAssign) and isinstance(s.op, ast.Add) and isinstance(s.value, ast.Constant)
-                           and s.value.value == 1 for s in f.body)
-            if not counting:
-                continue
-            n += 1
-            ok = all(dedup[t.name] for t in tg)
-            rr.ob(ctx.where(u, f), 'degree counter iterates the de-duplicating iterator %s' % sorted(t.qual for t in tg), ok=ok)
-            if not ok:
-                rr.fail(ctx.finding('R-DISTINCT-DEGREE', u, f, 'degree is counted over the raw link stubs (%s): repeated links are counted '
-                                    'several times instead of once per distinct page' % sorted(t.qual for t in tg)))
-    rr.require(n, 3, 'degree counting loops')
+            if isinstance(f.iter, ast.Call) and [t for t in P.targets(f.iter) if t.cls == 'LinkStore' and t.name in dedup]:
+                counting = all(isinstance(s_, ast.AugAssign) and isinstance(s_.op, ast.Add) and isinstance(s_.value, ast.Constant)
+                               and s_.value.value == 1 for s_ in f.body)
+                if counting:
+                    sites.append((u, f, f.iter))
+        # sum(1 for _ in it), len(list(it)), len(set(it))
+        for c in P.own(u, ast.Call):
+            if isinstance(c.func, ast.Name) and c.func.id == 'sum' and c.args and isinstance(c.args[0], ast.GeneratorExp) \
+                    and isinstance(c.args[0].elt, ast.Constant) and c.args[0].elt.value == 1:
+                it = c.args[0].generators[0].iter
+                if isinstance(it, ast.Call) and [t for t in P.targets(it) if t.cls == 'LinkStore' and t.name in dedup]:
+                    sites.append((u, c, it))
+            if isinstance(c.func, ast.Name) and c.func.id == 'len' and c.args and isinstance(c.args[0], ast.Call) \
+                    and isinstance(c.args[0].func, ast.Name) and c.args[0].func.id in ('list', 'tuple') and c.args[0].args:
+                it = c.args[0].args[0]
+                if isinstance(it, ast.Call) and [t for t in P.targets(it) if t.cls == 'LinkStore' and t.name in dedup]:
+                    sites.append((u, c, it))
+    for u, node, it in sites:
+        tg = [t for t in P.targets(it) if t.cls == 'LinkStore' and t.name in dedup]
+        ok = all(dedup[t.name] for t in tg)
+        rr.ob(ctx.where(u, node), 'degree counter iterates the de-duplicating iterator %s' % sorted(t.qual for t in tg), ok=ok)
+        if not ok:
+            rr.fail(ctx.finding('R-DISTINCT-DEGREE', u, node, 'degree is counted over the raw link stubs (%s): repeated links are counted several times instead of once per distinct page'
+                                % sorted(t.qual for t in tg)))
+    rr.require(len(sites), 3, 'degree counting constructs')
     rr.info['iterators'] = dedup
 
 
